@@ -21,6 +21,7 @@ import (
 	_ "github.com/klev-dev/klevdb/internal/zzverif/h_locks"
 	_ "github.com/klev-dev/klevdb/internal/zzverif/h_backup"
 	_ "github.com/klev-dev/klevdb/internal/zzverif/h_crash"
+	_ "github.com/klev-dev/klevdb/internal/zzverif/h_sync"
 	"github.com/klev-dev/klevdb/internal/zzverif/vrt"
 )
 
